@@ -40,11 +40,16 @@ def gen_cases(tier, seed):
     r = C.rng(seed, "C10")
     from ctparse.time.corpus import corpus
     corp = [t for target, ts, tests in corpus for t in tests if "#" not in t]
+    from . import streams as S
+    cov = [e["t"] for e in S.cov_entries() if "#" not in e["t"]]
     cases = []
     for i in range(20000 if tier == "thorough" else 4000):
         if i % 4 == 0:
             e = r.choice(corp)
             cls = "corpus"
+        elif i % 16 == 1 and cov:
+            e = r.choice(cov)
+            cls = "coverage-corpus"
         else:
             c, e = G.expression(r)
             cls = c.split("/")[0]
@@ -153,7 +158,12 @@ def run_case(case, ctx):
         input_words += [x for x in re.split(r"-+", w) if x]     # the subject splits on '-' by design
     if not _is_subseq(sub, input_words):
         probs.append(("subject-not-a-subsequence" + ("/no-match-path" if r_full.resolution is None else ""), "subject %r is not an ordered sub-sequence of the words of %r" % (r_full.subject, stripped)))
-    inert = [(w, s, e) for (w, s, e) in toks if not any(ms < e and me > s for (_id, ms, me) in matches_full)]
+    # "a word that no time pattern can match": no match of this run touches it AND no match of this run contains the same word
+    # elsewhere in the text (the subject is built by word equality against the matched words, by design: the second
+    # 'quarter' of 'one quarter quarter to 18 uhr' is a word a pattern can match)
+    matched_words = set(x for (_id, ms, me) in matches_full for w in stripped[ms:me].split() for x in re.split(r"-+", w) if x)
+    inert = [(w, s, e) for (w, s, e) in toks if not any(ms < e and me > s for (_id, ms, me) in matches_full)
+             and not any(x in matched_words for x in re.split(r"-+", w) if x)]
     mon.events["inert_words_observed"] += len(inert)
     inert_words = [x for w, s, e in inert for x in re.split(r"-+", w) if x]
     if not _is_subseq(inert_words, sub):
@@ -165,7 +175,8 @@ def run_case(case, ctx):
     tag = "/no-match-path" if r_noe.resolution is None else ""
     if not _is_subseq(sub_n, words_n):
         probs.append(("subject-not-a-subsequence" + tag, "(no expression) subject %r is not an ordered sub-sequence of the words of %r" % (r_noe.subject, norm_noe)))
-    inert_n = [x for (w, s_, e_) in toks_n if not any(ms < e_ and me > s_ for (_id, ms, me) in matches_noe) for x in re.split(r"-+", w) if x]
+    matched_words_n = set(x for (_id, ms, me) in matches_noe for w in norm_noe[ms:me].split() for x in re.split(r"-+", w) if x)
+    inert_n = [x for (w, s_, e_) in toks_n if not any(ms < e_ and me > s_ for (_id, ms, me) in matches_noe) for x in re.split(r"-+", w) if x and x not in matched_words_n]
     if not _is_subseq(inert_n, sub_n):
         probs.append(("inert-word-lost" + tag, "(no expression) words no pattern touched %r are not all kept (in order) in the subject %r" % (inert_n, r_noe.subject)))
     consumed_all = False
@@ -180,7 +191,8 @@ def run_case(case, ctx):
         # ... and every word that is not part of the expression must itself have been observed inert (a piece such as
         # 'at' put next to 'late evening' becomes part of the expression and legitimately vanishes with it)
         others = [x for k, w in case["items"] if k == "w" for x in re.split(r"[\s-]+", L.m._preprocess_string(w)) if x]
-        consumed_all = sorted(non_inert) == sorted(inside) and all(o in inert_words for o in others)
+        # (and no word of the expression itself was left over: a text of the coverage corpus is not one expression)
+        consumed_all = sorted(non_inert) == sorted(inside) and all(o in inert_words for o in others) and sorted(inert_words) == sorted(others)
     # F. same labels and subject whether or not a time expression was found
     if consumed_all and r_noe.resolution is None:
         mon.events["no_match_path_compared"] += 1
